@@ -222,7 +222,9 @@ One(acc, o) ==
 RECURSIVE Fold(_, _)
 Fold(acc, ord) == IF ord = <<>> THEN acc ELSE Fold(One(acc, Head(ord)), Tail(ord))
 
-Perms(D) == {s \in [1 .. Cardinality(D) -> D] : \A i, j \in DOMAIN s : i # j => s[i] # s[j]}
+RECURSIVE Perms(_)      \* all orders in which the finished tasks of a batch may be consumed
+Perms(D) == IF D = {} THEN {<<>>}
+            ELSE UNION {{<<x>> \o p : p \in Perms(D \ {x})} : x \in D}
 
 Answer(S, f) ==
     /\ started /\ ~done
